@@ -15,12 +15,13 @@ def _pre_round(st, fr):
     p = st.env.get((fr, 1))
     d = G.ptr.get(p)
     if d and d[0] == "loc":
-        m = st.env.get(d[1] + (("f", 0),))
-        e = st.env.get(d[1] + (("f", 1),))
+        from mlxsa.absint import run as R
+        m = st.env.get(d[1] + (("f", R.EFM),))
+        e = st.env.get(d[1] + (("f", R.EFE),))
         if m is None:
             from mlxsa.absint.domain import new_int
-            m = st.env[d[1] + (("f", 0),)] = new_int(1 << 63, (1 << 64) - 1)
-            e = st.env[d[1] + (("f", 1),)] = new_int(-63, 1 << 20)
+            m = st.env[d[1] + (("f", R.EFM),)] = new_int(1 << 63, (1 << 64) - 1)
+            e = st.env[d[1] + (("f", R.EFE),)] = new_int(-63, 1 << 20)
         else:
             st.set_iv(m, 1 << 63, (1 << 64) - 1)
             st.set_iv(e, -63, 1 << 20)
@@ -32,12 +33,13 @@ def _pre_moderate(st, fr):
     a1 = st.env.get((fr, 1))
     d = G.ptr.get(a1) if isinstance(a1, int) else None
     if d and d[0] == "loc":            # bellerophon(&Number)
-        m = st.env.get(d[1] + (("f", 1),))
+        from mlxsa.absint import run as R
+        m = st.env.get(d[1] + (("f", R.NUM_),))
         if m is None:
             from mlxsa.absint.domain import new_int
-            st.env[d[1] + (("f", 1),)] = new_int(1, (1 << 64) - 1)
-            st.env[d[1] + (("f", 0),)] = new_int(-(1 << 31), (1 << 31) - 1)
-            st.env[d[1] + (("f", 2),)] = new_int(0, 1)
+            st.env[d[1] + (("f", R.NUM_),)] = new_int(1, (1 << 64) - 1)
+            st.env[d[1] + (("f", R.NUE),)] = new_int(-(1 << 31), (1 << 31) - 1)
+            st.env[d[1] + (("f", R.NUD),)] = new_int(0, 1)
         else:
             st.set_iv(m, 1, (1 << 64) - 1)
     else:                              # compute_float(q, w)
@@ -73,6 +75,7 @@ def _run(job):
         from mlxsa import facts as F
         from mlxsa.absint import run
         f = F.build(job["config"], job["mode"], frontends=job.get("frontends", False), repo=os.environ.get("MLX_REPO"))
+        run.bind_fields(f)
         out = []
         if job["kind"] == "root":
             ctxs = [(job["target"], run.analyze_root(f, job["target"], job["model"]))]
